@@ -65,7 +65,16 @@ func (p *pp) Print(args ...interface{}) {
 	// The nested printer writes into the same buffer: it is subject to
 	// the same enclosing Safe()/Unsafe().
 	np.override = p.override
+	done := false
+	defer func() {
+		if !done {
+			// A panic is unwinding through the nested printer: the
+			// buffer it was writing to is still the outer one's.
+			p.buf = np.buf
+		}
+	}()
 	np.doPrint(args)
+	done = true
 	p.buf = np.buf
 	np.buf = buffer{}
 	np.override = noOverride
@@ -78,7 +87,15 @@ func (p *pp) Printf(format string, arg ...interface{}) {
 	np.buf = p.buf
 	// See Print() above.
 	np.override = p.override
+	done := false
+	defer func() {
+		if !done {
+			// See Print() above.
+			p.buf = np.buf
+		}
+	}()
 	np.doPrintf(format, arg)
+	done = true
 	p.buf = np.buf
 	np.buf = buffer{}
 	np.override = noOverride
